@@ -1,4 +1,5 @@
-(** * C02 -- 3-map structural integrity (work in progress: statements proved so far). *)
+(** * C02 -- 3-map structural integrity survives every editing history.
+    Statements only; every proof is [exact] of a lemma proved elsewhere. *)
 From Coq Require Import List NArith Bool.
 From HC Require Import Stm.Prog Stm.Atomic Map2.Ops2 Map2.State2 Map3.Ops3.
 Open Scope N_scope.
@@ -48,3 +49,60 @@ Theorem C02_link2_keeps_invariant `{Sig} : forall fa st c, inv3 st ->
   inv3 (snd (step3 fa st (Force3 c))).
 Proof. exact inv3_step_link2. Qed.
 Print Assumptions C02_link2_keeps_invariant.
+
+(** Every history of public editing calls of a 3-map (allocation, removal, links, unlinks, sews and unsews in
+    dimensions 1, 2 and 3, data writes; own-transaction [Force3] form or user [Block3] form; any attribute laws,
+    any injected law failure; succeeding, refused, hanging or crashing) made with non-null in-use darts (distinct
+    darts for 2- and 3-links) keeps the 3-map well formed: null dart inert, images in range, beta0 / beta1 inverse,
+    beta2 and beta3 fixed-point-free involutions, glued faces mirrored, removed darts free. *)
+From HC Require Import Map3.Wf3All.
+Theorem C02_history `{Sig} : forall fail_at ops st,
+  inv3 st -> hist_pre3 fail_at st ops -> inv3 (exec3 fail_at st ops).
+Proof. exact history_inv3. Qed.
+Print Assumptions C02_history.
+
+(** One step, as applied by the oracle to implementation observations. *)
+Theorem C02_step `{Sig} : forall fail_at st o,
+  inv3 st -> pre_op3 fail_at st o -> wf3 (nd (snd (step3 fail_at st o))) (mem (snd (step3 fail_at st o))).
+Proof. intros fa st o Hi Hp. exact (proj1 (proj2 (inv3_step fa st o Hi Hp))). Qed.
+Print Assumptions C02_step.
+
+(** The heart of it: a 3-link that terminates normally on in-use, distinct darts of a well-formed 3-map leaves
+    a well-formed 3-map -- whatever the two faces look like (the lock-step walks refuse everything else). *)
+From HC Require Import Map3.Wf3Link3 Stm.ProgFacts.
+Theorem C02_three_link `{Sig} : forall E n ld rd c w0 cnt w' cnt',
+  wf3 n w0 -> okd3p n w0 ld -> okd3p n w0 rd -> ld <> rd ->
+  run E (three_link n ld rd) c w0 cnt = (Done tt, w', cnt') -> wf3 n w'.
+Proof. exact three_link_done. Qed.
+Print Assumptions C02_three_link.
+
+(** Non-vacuity: a concrete history meets the premises of [C02_history] and really glues two triangles face to
+    face, then takes them apart again (executed on the f64 instance of the model). *)
+From Coq Require Import Floats. Import ListNotations.
+From HC Require Import Extract.Run3.
+Fixpoint hist_pre3b (fa : option N) (st : state2) (ops : list op3) : bool :=
+  match ops with
+  | [] => true
+  | o :: rest =>
+    (match o with Force3 c => pre_call3b (nd st) (mem st) c | Block3 _ => false | _ => true end) &&
+    hist_pre3b fa (snd (step3 fa st o)) rest
+  end.
+Lemma hist_pre3b_sound : forall fa ops st, hist_pre3b fa st ops = true -> hist_pre3 fa st ops.
+Proof.
+  intros fa. induction ops as [|o rest IH]; intros st Hb; cbn [hist_pre3b hist_pre3] in *; [exact I|].
+  apply andb_prop in Hb as [Ho Hr]. split; [|now apply IH].
+  destruct o; cbn [pre_op3]; try exact I; [exact Ho|discriminate].
+Qed.
+Definition c02_ops : list op3 :=
+  [Force3 (L1 1 2); Force3 (L1 2 3); Force3 (L1 3 1); Force3 (L1 4 5); Force3 (L1 5 6); Force3 (L1 6 4);
+   Force3 (L3 1 4); AddDart3; Force3 (L3 2 5); Force3 (U3 3); RemoveDart3 7; Force3 (L2 1 2)].
+Definition c02_start : state2 := {| nd := 7; mem := blank; aks := [] |}.
+Example C02_history_nonvacuous :
+  hist_pre3 None c02_start c02_ops /\
+  let st := exec3 None c02_start (firstn 7 c02_ops) in
+  beta (mem st) 3 1 = 4 /\ beta (mem st) 3 2 = 6 /\ beta (mem st) 3 3 = 5 /\ beta (mem st) 3 5 = 3.
+Proof. split; [apply hist_pre3b_sound; vm_compute; reflexivity | vm_compute; repeat split; reflexivity]. Qed.
+Example C02_history_end :
+  let st := exec3 None c02_start c02_ops in
+  beta (mem st) 3 1 = 0 /\ beta (mem st) 3 6 = 0 /\ beta (mem st) 2 1 = 2 /\ nd st = 8 /\ unused (mem st) 7 = true.
+Proof. vm_compute; repeat split; reflexivity. Qed.
